@@ -301,7 +301,7 @@ CM = 'moPepGen/cli/common.py'
 
 class ParamFlow(Contract):
     """shared machinery: symbolic args, stubs for the index directory and the loaders"""
-    props = ('C10', 'C12', 'C06')
+    props = ('C10', 'C12', 'C06', 'C04')      # C04: the canonical pool that variant peptides are filtered against is digested with the run's parameters
     declared_raises = None
     assumptions = ('assumed: IndexDir / loaders / print_start_message are stubs that record the calls (their own contracts are in contracts/c12.py)',
                    'assumed: args.* are the argparse values: strings for rule/exception, ints for miscleavage/min_length/max_length, a float for min_mw')
@@ -938,7 +938,7 @@ class SubSeqObj:
 
 @register
 class EnzymaticCleave(Contract):
-    path, qualname, props = AAR, 'AminoAcidSeqRecord.enzymatic_cleave', ('C10', 'C05')
+    path, qualname, props = AAR, 'AminoAcidSeqRecord.enzymatic_cleave', ('C10', 'C05', 'C04')
     assumptions = ('modular: find_all_enzymatic_cleave_sites returns the ascending site list of iter_enzymatic_cleave_sites (IterSites), sites in [1, len]',
                    'assumed: self[a:b] is the sub-record of residues a..b-1; Bio molecular_weight is a function of the sub-sequence')
 
